@@ -760,8 +760,14 @@ def dags(rng, n, alap_share=0.3):
                 if rng.random() < 0.5 and not alap:
                     p.add_task(c.name + "tag", parent=c, milestone=True, deps=[(u, False, 0)])      # a milestone below the container: at the container's bound
         if alap:
-            sinks = [t for t in leaves if not any(d[0] is t for u in order for d in u.deps)
-                     and not any(t is (pr[0] if isinstance(pr, tuple) else pr) for u in order for pr in u.precedes) and not t.precedes]
+            def chain(t):       # the task and every container around it: an edge to any of them makes t a predecessor
+                out_ = []
+                while t is not None:
+                    out_.append(t)
+                    t = t.parent
+                return out_
+            sinks = [t for t in leaves if not any(any(d[0] is a for a in chain(t)) for u in order for d in u.deps)
+                     and not any(any(a is (pr[0] if isinstance(pr, tuple) else pr) for a in chain(t)) for u in order for pr in u.precedes) and not t.precedes]
             for t in sinks:
                 if rng.random() < 0.7:
                     t.end = start + timedelta(days=rng.randint(20, 30), hours=17)
@@ -773,8 +779,25 @@ def dags(rng, n, alap_share=0.3):
 
 
 def dags_alap(rng, n):
-    """C08 / C04 backward mode: the nested DAGs of `dags`, every one of them scheduled backward."""
-    return [("b" + pid, p) for pid, p in dags(rng, n, alap_share=1.0)]
+    """C08 / C04 backward mode: the nested DAGs of `dags`, every one of them scheduled backward; half of them get a task that
+    waits for a whole CONTAINER (a work package), mostly without a date of its own: everything inside the container must be over
+    before it starts, although no leaf in there is named by the edge."""
+    out = []
+    for pid, p in dags(rng, n, alap_share=1.0):
+        conts = [c for c in p.tasks if c.kids and any(not k.kids and k.effort for k in c.kids)]
+        if conts and rng.random() < 0.5:
+            c = rng.choice(conts)
+            r = next(k for k in c.kids if not k.kids and k.effort).alloc
+            gate = p.add_task("gate", effort=p.G * rng.randint(1, 6), alloc=list(r), deps=[(c, False, rng.choice([0, 0, p.G]))])
+            if rng.random() < 0.3:
+                # (with a date of its own the gate is exempt from C04 -- but whoever waits for the GATE is not)
+                gate.end = p.start + timedelta(days=rng.randint(8, 16), hours=rng.choice([12, 17]))
+            # the leaves of that container are no sinks any more: deadlines written on them would contradict the edge
+            for k in p.ordered([c]):
+                if not k.kids:
+                    k.end = None
+        out.append(("b" + pid, p))
+    return out
 
 
 def limits_profile(rng, n):
